@@ -202,3 +202,7 @@ MANIFEST_TEXT["C12"] = {
     "level_note": "String space sampled (seeded) around a fixed construct list; remaining worker panics at known sites are listed as known findings.",
     "technique": "runtime robustness monitor (panic/hang monitors + structural result validator) under grammar-based and mutation fuzzing",
 }
+
+META["C11"] = {"level": "exploration", "rule": "placeholder", "budget": {"quick": 100, "thorough": 1200}, "floors": {"quick": {"evaluations": 2000, "distinct": 20}}, "assumptions": COMMON_ASSUMPTIONS}
+
+META["C17"] = {"level": "exploration", "rule": "placeholder", "budget": {"quick": 100, "thorough": 900}, "floors": {"quick": {"evaluations": 1000, "distinct": 20}}, "assumptions": COMMON_ASSUMPTIONS}
